@@ -1,14 +1,68 @@
 """C04 — see DESIGN.md section 4 ("the repository model") and lean/XvcRepo/XvcRepo/Props/C04.lean.
 Proof: Lean theorems about the executable repository model.  Tie: the model driver is compared with the rebuilt xvc
 binary after every command of generated histories.  Oracle: model-independent, lib/repo_check.py."""
+import random
 import repo_check as rc
+from repo_check import W, T, CI, RC
 
-ORACLES = [rc.o1_content_addressed]
+ORACLES = [rc.o1_content_addressed, rc.o4_restore_versions]
 RESTORE = dict(old_commits=True)
 
 
+def restore_histories(seed, n):
+    """`untrack --restore-versions` on paths with several committed versions (also versions shared with other paths,
+    repeated versions, links, moved paths), with and without a failing copy.  The failure of a copy is injected the way
+    a user meets it: something (a directory) already sits at the destination name, or the restored name - the path's
+    name plus 16 characters - is longer than NAME_MAX."""
+    rng = random.Random(f'c04-restore-{seed}')
+    out = []
+    long_name = 'L' * 236 + '.bin'                       # 240 bytes: fine as a file name, too long with the version suffix
+    for i in range(n):
+        e = rng.choice(['txt', 'bin', ''])
+        nm = lambda s: s + ('.' + e if e else '')
+        a, b = nm('a'), nm('d/b')
+        if rng.random() < 0.15:
+            a = long_name
+        cfg = {'algo': rng.choice([0, 0, 1, 2, 3]), 'method': rng.choice(['copy', 'copy', 'hardlink', 'symlink', 'reflink']), 'tob': 'auto'}
+        par = lambda: {'no_parallel': rng.random() < 0.5}
+        V = [bytes(f'v{k}-{i}-{rng.randint(0, 999)}\n', 'ascii') + (b'\x00\xff' if rng.random() < 0.3 else b'') for k in range(4)]
+        nv = rng.randint(1, 4)
+        h = [W(a, V[0]), W(b, V[0] if rng.random() < 0.5 else V[3]), T([a, b], **par())]
+        for k in range(1, nv):
+            h += [W(a, V[k]), (CI if rng.random() < 0.6 else T)([a], **par())]
+        if rng.random() < 0.3 and nv > 1:
+            h += [W(a, V[0]), CI([a], **par())]                      # an earlier version committed again
+        if rng.random() < 0.3:
+            h += [W(b, V[1]), CI([b], **par())]                      # b shares a second version with a
+        if rng.random() < 0.2 and a != long_name:
+            c = nm('c')
+            h.append({'op': 'move', 'src': a, 'dst': c}); a = c
+        if rng.random() < 0.15:
+            h.append({'op': 'remove', 'targets': [a], 'all_versions': False})     # current version no longer in the cache
+        targets = rng.choice([[a], [a], [a, b], [b, a]])
+        u = {'op': 'untrack', 'targets': targets, 'restore_versions': f'../restored-{len(h)}'}
+        mode = rng.choice(['ok', 'ok', 'block-one', 'block-one', 'block-last'])
+        if a == long_name:
+            u['block'] = [[a, k] for k in range(6)]                  # ENAMETOOLONG for every version of the long name
+        elif mode == 'block-one':
+            u['block'] = [[rng.choice(targets), rng.randint(0, nv - 1)]]
+        elif mode == 'block-last':
+            u['block'] = [[a, nv - 1]]
+        h.append(u)
+        if u.get('block'):
+            # after the failed attempt everything must still be there: restore without obstacle, then the rest still works
+            h.append({'op': 'untrack', 'targets': targets, 'restore_versions': f'../restored-{len(h)}'} if a != long_name
+                     else RC([a], force=True, **par()))
+        other = [p for p in (a, b) if p not in targets]
+        if other:
+            h.append(RC(other, force=True, **par()))
+        out.append((f'restore-{mode}-{nv}v-{i}', cfg, h))
+    return out
+
+
 def run(chk):
-    return rc.run_property(chk, 'C04', ORACLES, restore=RESTORE)
+    n = 40 if chk.tier == 'quick' else 400
+    return rc.run_property(chk, 'C04', ORACLES, restore=RESTORE, nq=240, extra_corpus=restore_histories(chk.seed, n))
 
 
 def replay(chk, data):
